@@ -14,6 +14,10 @@ pub struct Case {
     pub pg: PG,
     /// indices into pg.goals, with repetitions
     pub history: Vec<usize>,
+    /// positions of the history at which the goal is first enumerated with solve_multiple on the same instance
+    /// (SLG only; answers are then cached ahead of the aggregating solve)
+    #[serde(default)]
+    pub drain: Vec<usize>,
 }
 
 /// `Unique` whose substitution maps every variable to a distinct canonical variable (trivially true answer)
@@ -119,7 +123,7 @@ impl Property for C10 {
         "C10"
     }
     fn rule(&self) -> String {
-        "case = generated program (F-horn, auto/coinductive traits) with 3-6 goals and a history (sequence over the goals with repetitions, length <= 14) posed to ONE solver instance; per solver configuration (SLG, recursive cache on, recursive cache off on non-growing programs) every answer of the history must render identically to a fresh solver's answer for that goal, and fresh cache-on/cache-off answers must agree. Non-trivial = history position where the goal was already solved before on this instance or follows a different goal sharing a trait with it; distinct by hash of (program, goal, position, prefix of the history, configuration).".into()
+        "case = generated program (F-horn, auto/coinductive traits) with 3-6 goals and a history (sequence over the goals with repetitions, length <= 14; at a fifth of the positions the goal is first enumerated with solve_multiple on the same SLG instance; a quarter of the programs are fact-rich so that tables hold several cached answers) posed to ONE solver instance; per solver configuration (SLG, recursive cache on, recursive cache off on non-growing programs) every answer of the history must render identically to a fresh solver's answer for that goal, and fresh cache-on/cache-off answers must agree. Non-trivial = history position where the goal was already solved before on this instance or follows a different goal sharing a trait with it; distinct by hash of (program, goal, position, prefix of the history, configuration).".into()
     }
     fn assumptions(&self) -> Vec<String> {
         vec!["answers compared as rendered strings with constraints sorted (as tests/test/mod.rs does)".into(), "a history is abandoned after a panic/budget excess of the used solver (its state is then out of contract; C12 covers recovery)".into()]
@@ -130,10 +134,18 @@ impl Property for C10 {
     fn decode(&self, t: &mut Tape, _tier: Tier) -> Case {
         let cfg = if t.chance(55) { GenCfg::horn_auto() } else { GenCfg::horn() };
         let ng = 3 + t.choose(4);
-        let pg = super::c01::decode_pg(t, &cfg, &GoalCfg::full(), ng);
+        // shape knob: fact-rich programs whose goals have many answers (tables with several cached answers)
+        let pg = if t.chance(25) {
+            let program = super::c03::gen_enum_program(t);
+            let goals = (0..ng).map(|_| super::c03::gen_enum_goal(t, &program)).collect();
+            PG { program, goals }
+        } else {
+            super::c01::decode_pg(t, &cfg, &GoalCfg::full(), ng)
+        };
         let len = 3 + t.choose(12);
-        let history = (0..len).map(|_| t.choose(ng)).collect();
-        Case { pg, history }
+        let history: Vec<usize> = (0..len).map(|_| t.choose(ng)).collect();
+        let drain = (0..len).filter(|_| t.chance(20)).collect();
+        Case { pg, history, drain }
     }
     fn describe(&self, c: &Case) -> Value {
         let mut v = c.pg.describe();
@@ -145,11 +157,17 @@ impl Property for C10 {
         for i in 0..c.history.len() {
             let mut q = c.clone();
             q.history.remove(i);
+            q.drain = c.drain.iter().filter(|d| **d != i).map(|d| if *d > i { *d - 1 } else { *d }).collect();
+            out.push(q);
+        }
+        for i in 0..c.drain.len() {
+            let mut q = c.clone();
+            q.drain.remove(i);
             out.push(q);
         }
         for p in shrink_program(&c.pg.program) {
             if c.pg.goals.iter().all(|g| goal_traits_ok(g, p.traits.len())) {
-                out.push(Case { pg: PG { program: p, goals: c.pg.goals.clone() }, history: c.history.clone() });
+                out.push(Case { pg: PG { program: p, goals: c.pg.goals.clone() }, history: c.history.clone(), drain: c.drain.clone() });
             }
         }
         for (i, g) in c.pg.goals.iter().enumerate() {
@@ -202,6 +220,21 @@ impl Property for C10 {
                         None => continue,
                     };
                     out.evals += 1;
+                    if *sv == Sv::Slg && case.drain.contains(&pos) {
+                        // enumerate (up to 12 answers) on the same instance first
+                        let mut n = 0;
+                        let (r, _) = guarded(DEFAULT_BUDGET, || {
+                            solver.solve_multiple(&*low.program, &lg.peeled.goal, &mut |res, has_next| {
+                                n += 1;
+                                has_next && n < 12 && !matches!(res, chalk_solve::SubstitutionResult::Floundered)
+                            })
+                        });
+                        out.bump("slg:drained_before_solve");
+                        if !matches!(r, Run::Done(_)) {
+                            out.bump("slg:history_abandoned(enumeration overflow/budget/panic)");
+                            break;
+                        }
+                    }
                     let (run, _) = solve_with(&mut *solver, &*low.program, &lg.peeled.goal, DEFAULT_BUDGET);
                     let mut got_sol = None;
                     let got = match run {
